@@ -37,6 +37,7 @@ import tempfile
 from twisted.internet import defer, error
 from twisted.python.failure import Failure
 
+from .. import env
 from ..core import HarnessError, StopRun
 from ..ctlpeer import CtlPeer, Reply, ok, err
 from ..simtor import SimTor, kvline_items
@@ -836,7 +837,7 @@ class OnionRun(object):
 
     def run(self):
         sim = self.sim
-        self.root = os.path.join(SCRATCH_PARENT, 'txsim-onion-%d' % os.getpid())
+        self.root = os.path.join(SCRATCH_PARENT, 'txsim-onion-%07d' % env.REAL_GETPID())   # constant width: the path's length is on the wire
         self.norm = _normaliser(self.root)
         orig_log = sim.log
         norm = self.norm
